@@ -159,7 +159,7 @@ fn stream_exact(rep: &mut Report, orc: &mut Oracle, rng: &mut Rng, m: &Moc, n_mu
   ok
 }
 /// JSON: writer vs Model/JsonCodec.v to_json, character by character
-fn json_exact(rep: &mut Report, orc: &mut Oracle, m: &Moc) -> bool {
+fn json_exact(rep: &mut Report, orc: &mut Oracle, rng: &mut Rng, m: &Moc, n_mut: usize) -> bool {
   let mut ok = true;
   for fold in [None, Some(0usize), Some(10), Some(60)] {
     rep.evaluations += 1;
@@ -184,6 +184,13 @@ fn json_exact(rep: &mut Report, orc: &mut Oracle, m: &Moc) -> bool {
         if !model.starts_with("OK") || asciix::hex(s.as_bytes()) != model_hex {
           ok = false;
           rep.corr_break("to_json_aladin writes other characters than the character-level model", &format!("{} # SER {}", req, m.line()), &format!("{:?}", s), &format!("{:?}", String::from_utf8_lossy(&unhex(&model_hex))), "src/deser/json.rs to_json_aladin == Model/JsonCodec.v to_json");
+        }
+        let c = m.q.c();
+        ok &= dispatch!(m.q, m.w, |T, QQ| asciix::compare_reader_json_1d::<T, QQ>(rep, orc, c, m.w, &s, "written"));
+        if s.len() < 3000 {
+          for d in asciix::json_mutations(rng, &s, n_mut) {
+            ok &= dispatch!(m.q, m.w, |T, QQ| asciix::compare_reader_json_1d::<T, QQ>(rep, orc, c, m.w, &d, "mutated"));
+          }
         }
       }
     }
@@ -500,7 +507,7 @@ pub fn run(ctx: &Ctx) -> Report {
           if i % 3 == 0 {
             ascii_exact(&mut rep, &mut orc, &mut rng, &m, 1);
             stream_exact(&mut rep, &mut orc, &mut rng, &m, 1);
-            json_exact(&mut rep, &mut orc, &m);
+            json_exact(&mut rep, &mut orc, &mut rng, &m, 1);
           }
         }
       }
@@ -509,13 +516,16 @@ pub fn run(ctx: &Ctx) -> Report {
           check_moc(&mut rep, &mut orc, &mm);
           ascii_exact(&mut rep, &mut orc, &mut rng, &mm, 2);
           stream_exact(&mut rep, &mut orc, &mut rng, &mm, 2);
-          json_exact(&mut rep, &mut orc, &mm);
+          json_exact(&mut rep, &mut orc, &mut rng, &mm, 2);
         }
       }
       // hand-written documents around every branch of the reader
       let c = q.c();
       for doc in asciix::crafted_1d(w, md, q.n_cells_max(w)) {
         dispatch!(q, w, |T, QQ| asciix::compare_reader_1d::<T, QQ>(&mut rep, &mut orc, c, w, &doc, "crafted"));
+      }
+      for doc in asciix::crafted_json_1d(w, md, q.n_cells_max(w)) {
+        dispatch!(q, w, |T, QQ| asciix::compare_reader_json_1d::<T, QQ>(&mut rep, &mut orc, c, w, &doc, "crafted"));
       }
       let name = match q { Q::S => "HPX", Q::T => "TIME", Q::F => "FREQUENCY" };
       for doc in asciix::crafted_stream(name, w, md, q.n_cells_max(w)) {
@@ -540,7 +550,7 @@ pub fn run(ctx: &Ctx) -> Report {
     check_moc(&mut rep, &mut orc, &m);
     ascii_exact(&mut rep, &mut orc, &mut rng, &m, 4);
     stream_exact(&mut rep, &mut orc, &mut rng, &m, 4);
-    json_exact(&mut rep, &mut orc, &m);
+    json_exact(&mut rep, &mut orc, &mut rng, &m, 3);
     rep.count(&format!("random:{}{}", q.c(), w));
   }
   rep.notes.push(format!("oracle calls: {}", orc.calls));
